@@ -29,6 +29,12 @@ func (e *Engine) newCtx(fn *ssa.Function, key string, props []string) *Ctx {
 
 // verifyFunction checks one function against its contract.
 func (e *Engine) verifyFunction(fc *FuncContract) *FnResult {
+	return e.verifyFunctionIn(fc, nil)
+}
+
+// verifyFunctionIn: as verifyFunction, with the closures named in inContext inlined at their call / go
+// sites and their own rules checked there (with the bindings this function gives them).
+func (e *Engine) verifyFunctionIn(fc *FuncContract, inContext map[string]bool) *FnResult {
 	res := &FnResult{Key: fc.Key}
 	fn := e.fnByKey[fc.Key]
 	if fn == nil {
@@ -36,6 +42,7 @@ func (e *Engine) verifyFunction(fc *FuncContract) *FnResult {
 		return res
 	}
 	c := e.newCtx(fn, fc.Key, fc.Props)
+	c.inContext = inContext
 	res.Decls = c.d
 	s := &State{heap: map[string]Term{}}
 	var args, binds []Value
@@ -194,19 +201,29 @@ func (c *Ctx) fnEnv(s *State, fn *ssa.Function, fr *frame, args []Value) *Env {
 }
 
 func (c *Ctx) checkReturn(rp retPath, fc *FuncContract, fn *ssa.Function, args []Value) {
+	if rp.s.dead {
+		return
+	}
+	c.checkReturnFrame(rp, fc, fn, args, rp.s.frames[0], rp.s.trace, false)
+}
+
+// checkReturnFrame checks the postconditions and effect rules of fc at a return of fn. With inContext,
+// fn was inlined at a call site of the function being verified: fr is its (still pushed) frame and
+// trace holds the events since the call, so the same rules are decided with the caller's actual
+// bindings of its captured variables instead of unconstrained ones.
+func (c *Ctx) checkReturnFrame(rp retPath, fc *FuncContract, fn *ssa.Function, args []Value, fr *frame, trace []Event, inContext bool) {
 	s := rp.s
 	if s.dead {
 		return
 	}
-	fr := s.frames[0]
 	env := c.fnEnv(s, fn, fr, args)
 	env.atlock = s.atLock
-	env.trace = s.trace
+	env.trace = trace
 	sig := fn.Signature.Results()
 	for i, v := range rp.vals {
 		env.results = append(env.results, tv{v, sig.At(i).Type()})
 	}
-	if len(fc.GhostAtExit) > 0 {
+	if len(fc.GhostAtExit) > 0 && !inContext {
 		genv := c.fnEnv(s, fn, fr, args)
 		genv.atlock = s.atLock
 		genv.results = env.results
@@ -238,6 +255,10 @@ func (c *Ctx) checkReturn(rp retPath, fc *FuncContract, fn *ssa.Function, args [
 		c.oblige(s, "ensures", fmt.Sprintf("%s/ensures[%s]", fc.Key, label), g, "", "postcondition: "+en.Src, props)
 	}
 	s.heap = finalHeap
+	if inContext {
+		c.checkTraces(s, env, fc, trace, 0)
+		return
+	}
 	// locks must not leak out of a function unless its contract says so
 	if len(s.locks) > len(fc.Holds) && !fc.Goroutine {
 		var ks []string
